@@ -243,7 +243,7 @@ def verdict(case, sched, result, mon, array, lock, cachers):
         if p.exc is not None and not isinstance(p.exc, SchedAbort):
             raise Violation(f"caller {p.name} failed with {type(p.exc).__name__}: {p.exc} | case={info}") from p.exc
     if result == Sched.DEADLOCK:
-        raise Violation(f"callers wait forever (no runnable caller): blocked={sched.blocked} | case={info}")
+        raise Violation(f"callers wait forever (no runnable caller): blocked={sched.blocked} | case={info} | where={sched.blocked_stacks}")
     held = {i: array.peek(i) for i in array.touched if array.peek(i) != 0}
     require(not held, "lock table not all zero after every caller left", held=held, case=info)
     require(not lock.locked(), "table lock still held at quiescence", case=info)
@@ -306,6 +306,26 @@ def contended(case):
                     return True
     return False
 
+def cross_caller_collision_with_nesting(case):
+    """a caller nests get_set(a) > get_set(b) and ANOTHER caller uses a key whose lock-table index collides with a or b"""
+    used = [{k for op in ops for k, _ in _keys_of(op)} for ops in case["parts"]]
+    for i, ops in enumerate(case["parts"]):
+        for op in ops:
+            if op.get("nested"):
+                mine = (op["key"], op["nested"]["key"])
+                for j, ks in enumerate(used):
+                    if j != i and any(colliding(m, k) for m in mine for k in ks):
+                        return True
+    return False
+
+def classify_sched(case, exc):
+    """Known finding: lock-order deadlock through the hash-indexed lock table when nested get_set calls of one caller meet a
+    colliding key of another caller (every blocked caller sits in the write-lock retry loop). Nothing else is excused."""
+    if isinstance(exc, Violation) and str(exc).startswith("callers wait forever") and "retry-sleep" in str(exc) \
+            and cross_caller_collision_with_nesting(case):
+        return "C19-nested-get_set-deadlock-on-colliding-index"
+    return None
+
 def nontrivial_sched(case):
     return contended(case) and case.get("_switches", 0) >= 4
 
@@ -322,6 +342,7 @@ def classes_sched(case):
     keys = {op["key"] for op in ops}
     if {"k74", "k408"} <= keys: out.append("colliding-keys")
     if contended(case): out.append("contended")
+    if cross_caller_collision_with_nesting(case): out.append("nesting-meets-foreign-colliding-key")
     sw = case.get("_switches", 0)
     out.append("switches>=10" if sw >= 10 else "switches<10")
     return out
@@ -560,7 +581,7 @@ def real_proc_cases(draw, tier):
             "n_lines": draw(st.integers(1, 4)), "maxtasks": draw(st.sampled_from([0, 0, 2]))}
 
 SUBCHECKS = [
-    Sub(name="sched", run=run_sched, strategy=sched_cases, nontrivial=nontrivial_sched, classes=classes_sched, key=key_sched,
+    Sub(name="sched", run=run_sched, strategy=sched_cases, nontrivial=nontrivial_sched, classes=classes_sched, key=key_sched, classify=classify_sched,
         quick=2400, thorough=120000, quick_shards=4, quick_budget_s=50,
         what="generated caller programs x generated schedules over ConcurrentCacher with instrumented lock/array/inner cache/sleep; invariant monitor, quiescence, sound deadlock detection"),
     Sub(name="pb", run=run_pb, enumerate=pb_enumerate, nontrivial=lambda c: len(c["preemptions"]) >= 1, exhaustive=True,
